@@ -6,7 +6,8 @@ ROOT = os.path.dirname(os.path.abspath(__file__))
 REPO = os.environ.get("VERIF_REPO", "/repo")
 ENV = dict(os.environ, GOFLAGS="-mod=mod", GOPROXY="off", CGO_ENABLED="0")
 TESTS = [("./pkg/seccomp/libseccomp", "libseccomp", "SelfTestC01"), ("./runner/ptrace", "ptrace", "SelfTestC02"),
-         ("./runner/ptrace/filehandler", "filehandler", "SelfTestC18"), ("./pkg/rlimit", "rlimit", "SelfTestC08"), ("./ptracer", "ptracer", "SelfTestC15")]
+         ("./runner/ptrace/filehandler", "filehandler", "SelfTestC18"), ("./pkg/rlimit", "rlimit", "SelfTestC08"), ("./ptracer", "ptracer", "SelfTestC15"),
+         ("./pkg/unixsocket", "unixsocket", "SelfTestC19")]
 bad = 0
 work = tempfile.mkdtemp(prefix="selftest_", dir=os.path.join(ROOT, ".work")) if os.path.isdir(os.path.join(ROOT, ".work")) else tempfile.mkdtemp()
 for pkg, pkgname, fn in TESTS:
